@@ -47,8 +47,19 @@ package tokenizers
 //@   ensures[C13] forall ch rune :: (view(result.GenericWordState.mp, ch) != nil) == exprWordChar(ch)
 //@   assigns nothing
 //@   nopanic
-// keywords keep their spelling; the token is the word the generic word state read
+// the keyword table: exactly these ten words (established by the package initialiser; a scan finds no other store to it)
+//@ spec isKeywordUpper(s string) bool = s == "AND" || s == "OR" || s == "NOT" || s == "XOR" || s == "LIKE" || s == "IS" || s == "IN" || s == "NULL" || s == "TRUE" || s == "FALSE"
+//@ globalinv len(Keywords) == 10 && allocated(Keywords) && Keywords[0] == "AND" && Keywords[1] == "OR" && Keywords[2] == "NOT" && Keywords[3] == "XOR" && Keywords[4] == "LIKE" &&
+//@     Keywords[5] == "IS" && Keywords[6] == "IN" && Keywords[7] == "NULL" && Keywords[8] == "TRUE" && Keywords[9] == "FALSE"
+//@ func init
+//@   requires !initrun()
+//@   ensures len(Keywords) == 10 && Keywords[0] == "AND" && Keywords[1] == "OR" && Keywords[2] == "NOT" && Keywords[3] == "XOR" && Keywords[4] == "LIKE" &&
+//@     Keywords[5] == "IS" && Keywords[6] == "IN" && Keywords[7] == "NULL" && Keywords[8] == "TRUE" && Keywords[9] == "FALSE"
+// "keywords in any letter case ... keep their spelling": a word is a Keyword iff its upper-cased text is in the table; the token's
+// text is the word the generic word state read, whatever the class
 //@ func (c *ExpressionWordState) NextToken
+//@   globals
+//@   ensures[C13] (result.typ == tokenizers.Keyword) == isKeywordUpper(upper(result.value))
 //@   requires c.GenericWordState != nil && mapInv(c.GenericWordState.mp)
 //@   requires c != nil && isScanner(scanner) && sc(scanner).position + 1 < len(sc(scanner).content)
 //@   requires forall i int :: 0 <= i && i < len(sc(scanner).content) ==> scalar(sc(scanner).content[i])
@@ -59,7 +70,8 @@ package tokenizers
 //@   nopanic
 //@   ensures[C13] result.typ == tokenizers.Word || result.typ == tokenizers.Keyword
 //@   loop 0
-//@     invariant -1 <= rangeindex && rangeindex < len(Keywords)
+//@     invariant -1 <= rangeindex && rangeindex < len(Keywords) && token != nil && token.typ == tokenizers.Word
+//@     invariant forall j int :: 0 <= j && j <= rangeindex ==> Keywords[j] != upper(token.value)
 //@     decreases len(Keywords) - rangeindex
 //
 // a number without sign, optional exponent [eE][+-]?digits taken only when a digit follows
